@@ -168,6 +168,8 @@ class SetHashes(Spec):
                     keysets = {tuple(sorted(still))}
                     if still:
                         keysets.add(tuple(sorted(still[1:])))
+                        for h in still:        # every single withheld hash, the topmost (a child of the root) included
+                            keysets.add(tuple(sorted(set(still) - {h})))
                     keysets.add(tuple(sorted(set(still) | {node})))
                     keysets.add(tuple(sorted(set(still) | {0})))
                     stray = [k for k in range(size) if k not in need and k != node and k != 0]
